@@ -17,6 +17,7 @@ import (
 //   sphash       RegCustomDiceParser matching '#' digits+ (groups: whole, digits; payload = digits), reading one rune beyond and unreading it
 //   spzero       RegCustomDiceParser that reports Matched without consuming anything
 //   hooks        identity HookValueLoadPre / HookValueLoadPost / HookValueStore
+//   hooks2       identity HookValueLoadPre / HookValueLoadPost that calls doCompute only for computed values
 //   rewr         identity CustomDetailRewriteFunc / CustomDetailSpanRewriteFunc
 // Output: "<ok VALUE d=DETAIL m=MATCHED r=REST seed=SEED|err MSG> vars=… calls=<hex log of handler calls>"
 func customLine(t []string) string {
@@ -52,6 +53,15 @@ func customLine(t []string) string {
 					return doCompute(cur)
 				}
 				vm.Config.HookValueStore = func(ctx *ds.Context, name string, v *ds.VMValue) (*ds.VMValue, bool) { return nil, false }
+			case sp == "hooks2":
+				// another pass-through: plain values are handed back as they are, only computed values go through doCompute
+				vm.Config.HookValueLoadPre = func(ctx *ds.Context, name string) (string, *ds.VMValue) { return name, nil }
+				vm.Config.HookValueLoadPost = func(ctx *ds.Context, name string, cur *ds.VMValue, doCompute func(*ds.VMValue) *ds.VMValue, detail *ds.BufferSpan) *ds.VMValue {
+					if cur != nil && cur.TypeId == ds.VMTypeComputedValue {
+						return doCompute(cur)
+					}
+					return cur
+				}
 			case sp == "rewr":
 				vm.Config.CustomDetailRewriteFunc = func(ctx *ds.Context, cur string, span ds.BufferSpan, data []byte, off int) string { return cur }
 				vm.Config.CustomDetailSpanRewriteFunc = func(ctx *ds.Context, def string, span ds.BufferSpan, isRoot bool, data []byte, off int) string { return def }
